@@ -85,9 +85,13 @@ def main():
                                   "inconclusive": "case watchdog fired after %ds" % int(time.time() - t0)}}
             except BaseException as e:  # noqa  (an injected KeyboardInterrupt/SystemExit escaping the API must not kill the worker)
                 signal.alarm(0)
+                fp_exhausted = type(e).__name__ == "FpDomainExhausted"
                 tb = traceback.extract_tb(e.__traceback__)
                 txt = "".join(traceback.format_exception(type(e), e, e.__traceback__))
-                if classify_exception(tb, repo) == "api":
+                if fp_exhausted:
+                    rec = {"index": index, "wall": round(time.time() - t0, 3),
+                           "result": {"violations": [], "obs": {"fp_domain_exhausted": 1}, "skip": "fp-domain-exhausted"}}
+                elif classify_exception(tb, repo) == "api":
                     rec = {"index": index, "wall": round(time.time() - t0, 3), "result": {
                         "violations": [{"mech": "api-exception:" + type(e).__name__,
                                         "msg": "exception escaped a public API call in a fault-free scenario",
